@@ -457,6 +457,12 @@ class FSInterp(ResultInterp):
         if isinstance(it, CsvR):
             self.fslog("read-rows", it.h.path)
             return [list(r) for r in self.root.fs.files.get(it.h.path, [])]
+        if isinstance(it, FileH) and "r" in str(it.mode) and it.path in self.root.fs.files:
+            # the file is parsed by hand, line by line: recorded (the rows of the abstract file
+            # system are csv rows; a hand parser sees their unquoted text only)
+            self.root.fs.__dict__.setdefault("raw_reads", []).append((it.path, node, self.func.qual))
+            self.fslog("read-rows", it.path)
+            return ["\t".join(str(c) for c in r) + "\n" for r in self.root.fs.files.get(it.path, [])]
         return super().iterate(it, node)
 
     def isinstance_hook(self, v, klass, node):
